@@ -255,7 +255,13 @@ def obs(x, Pm, depth=0):
         return ('dict',) + tuple((repr(k), obs(v, Pm, depth + 1)) for k, v in sorted(x.items(), key=lambda kv: repr(kv[0])))
     if isinstance(x, (set, frozenset)):
         return ('set', tuple(sorted(repr(e) for e in x)))
-    if isinstance(x, np.generic):
+    if isinstance(x, np.generic):                 # NumPy scalar vs Python scalar is representation
+        if isinstance(x, np.bool_):
+            return ('O', 'bool', repr(bool(x)))
+        if isinstance(x, np.integer):
+            return ('O', 'int', repr(int(x)))
+        if isinstance(x, np.floating):
+            return ('f', _fhex(x))
         return ('g', x.dtype.str, x.tobytes())
     if isinstance(x, bool) or x is None or isinstance(x, (int, str, bytes, slice, type(Ellipsis))):
         return ('O', type(x).__name__, repr(x))
@@ -458,6 +464,7 @@ def summary(o):
 def worker(chunk):
     Pm = P()
     out = []
+    tw = []
     stats = {}
 
     def cnt(k, n=1):
@@ -474,9 +481,10 @@ def worker(chunk):
         if per:
             cnt('twinned')
             cnt('twin-runs', len(SUBST))
+            tw.append(d['id'])
         for f in fails:
             out.append((d['id'], f))
-    return {'fail': out, 'stats': stats}
+    return {'fail': out, 'stats': stats, 'twinned': tw}
 
 
 def _role(lab):
@@ -564,7 +572,7 @@ UNARY = {
     'str': lambda Pm, x: str(x), 'repr': lambda Pm, x: repr(x), 'builtin0': lambda Pm, x: x[0].as_builtin(),
     'bool': lambda Pm, x: bool(x), 'clip01': lambda Pm, x: x.clip(0, 1), 'clip01_noremask': lambda Pm, x: x.clip(0, 1, remask=False),
     'mw_eq0': lambda Pm, x: x.mask_where_eq(0, 1), 'mw_lt0': lambda Pm, x: x.mask_where_lt(0), 'mw_ne0_keep': lambda Pm, x: x.mask_where_ne(0, 7, remask=False),
-    'norm': lambda Pm, x: x.norm(), 'unit': lambda Pm, x: x.unit(), 'wod': lambda Pm, x: x.wod, 'd_dt': lambda Pm, x: x.d_dt,
+    'norm': lambda Pm, x: x.norm(), 'unit': lambda Pm, x: x.unit(), 'wod': lambda Pm, x: x.wod,
     'flip': lambda Pm, x: x[::-1], 'count_masked': lambda Pm, x: x.count_masked(), 'mvals_sum': lambda Pm, x: x.mvals.sum(),
     'to_scalar0': lambda Pm, x: x.to_scalar(0), 'cumsum_like': lambda Pm, x: x + x.sum(), 'copy': lambda Pm, x: x.copy(),
     'as_index_m': lambda Pm, x: x.as_index(masked=0) if isinstance(x, Pm.Scalar) else x.as_index(masked=0),
@@ -603,6 +611,15 @@ def prog_leaves(p):
     out = []
     for c in p[1:]:
         out.extend(prog_leaves(c))
+    return out
+
+
+def prog_ops(p):
+    if p[0] == 'leaf':
+        return set()
+    out = {p[0]}
+    for c in p[1:]:
+        out |= prog_ops(c)
     return out
 
 
@@ -672,13 +689,14 @@ def prog_str(p):
 
 
 def comp_signature(p, f):
-    kids = [c[0] if c[0] != 'leaf' else 'leaf:%s:%s' % (LEAVES[c[1]]['cls'], LEAVES[c[1]]['kind']) for c in p[1:]]
+    kids = [c[0] for c in p[1:] if c[0] != 'leaf']
     exc = None
     for k in ('twin', 'base'):
         if f[k].startswith('raised'):
             exc = f[k][7:]
             break
-    return {'kind': 'comp', 'root': p[0], 'children': '+'.join(kids), 'diff': f['kind'], 'depth': prog_depth(p), 'exc': exc}
+    return {'kind': 'comp', 'root': p[0], 'children': '+'.join(kids), 'ops': '+'.join(sorted(prog_ops(p))),
+            'diff': f['kind'], 'depth': prog_depth(p), 'exc': exc}
 
 
 def comp_worker(chunk):
@@ -728,12 +746,34 @@ def exhaustive_programs():
     return out
 
 
-def random_program(rng, depth):
-    if depth == 0 or rng.random() < 0.15:
-        return ['leaf', rng.randrange(len(LEAVES))]
-    if rng.random() < 0.5:
-        return [rng.choice(sorted(UNARY)), random_program(rng, depth - 1)]
-    return [rng.choice(sorted(BINARY)), random_program(rng, depth - 1), random_program(rng, depth - 1)]
+def grow_programs(rng, n, Pm, maxdepth=3):
+    """n seeded programs of depth <= maxdepth grown bottom-up from sub-programs that evaluate without an
+    exception on the untouched operands (one raising program in ten is kept as well)"""
+    pool = [(['leaf', i], 0) for i in range(len(LEAVES))]
+    un, bi = sorted(UNARY), sorted(BINARY)
+    out = []
+    tries = 0
+    while len(out) < n and tries < 30 * n:
+        tries += 1
+        if rng.random() < 0.5:
+            op, args = rng.choice(un), [rng.choice(pool)]
+        else:
+            op, args = rng.choice(bi), [rng.choice(pool), rng.choice(pool)]
+        d = 1 + max(a[1] for a in args)
+        if d > maxdepth:
+            continue
+        p = [op] + [a[0] for a in args]
+        try:
+            o, _ = run_prog(p, None, Pm)
+        except Exception:
+            continue
+        if o['ok']:
+            if o['result'][0] != 'O' if isinstance(o['result'], tuple) else True:
+                pool.append((p, d))
+            out.append(p)
+        elif rng.random() < 0.1:
+            out.append(p)
+    return out
 
 
 def corpus_programs():
@@ -748,6 +788,239 @@ def corpus_programs():
                         out.append(c['prog'])
                 except Exception:
                     pass
+    return out
+
+
+# ---------------------------------------------------------------------------------------
+# (K) correspondence: model programs on integer Scalars, both twins
+# ---------------------------------------------------------------------------------------
+K_UN = ['UNeg', 'USanit0', 'UShrinkRT', 'USum', 'UMax', 'UMin', 'UMean', 'UAny', 'UAll', 'UArgmax', 'UArgmin', 'USort']
+K_BIN = ['BAdd', 'BSub', 'BMul', 'BFloordiv', 'BEq', 'BLt', 'BMaximum', 'BMaskWhere', 'BGetitem', 'BStack']
+K_REDUCE = {'USum', 'UMax', 'UMin', 'UMean', 'UAny', 'UAll', 'UArgmax', 'UArgmin'}
+K_HIDDEN = [0, -1, 1, 7, 10 ** 6, -10 ** 6, 10 ** 9, 3, -2]
+
+
+def k_len(p, lens):
+    """model length of a program's value, 'S' marks a shapeless (reduced) value; None = rejected by the generator"""
+    if p[0] == 'leaf':
+        return lens[p[1]]
+    for c in p[1:]:                   # Boolean-valued operations only at the root (the model is untyped)
+        if c[0] in ('UAny', 'UAll', 'BEq', 'BLt', 'UShrinkRT'):      # (an all-masked shrink collapses its shape)
+            return None
+    if len(p) == 2:
+        a = k_len(p[1], lens)
+        if a is None:
+            return None
+        if a == 'E':                  # a shape error below propagates
+            return 'E'
+        if p[0] in K_REDUCE:
+            if p[0] == 'UMean' and isinstance(a, int) and a > 10:      # 2520 = lcm(1..10) keeps the mean integral
+                return None
+            return None if a == 'S' else 'S'
+        if p[0] in ('USort', 'UShrinkRT') and a == 'S':
+            return None
+        return a
+    a, b = k_len(p[1], lens), k_len(p[2], lens)
+    if a is None or b is None:
+        return None
+    if a == 'E' or b == 'E':
+        return 'E'
+    if p[0] == 'BGetitem':
+        return None if a == 'S' else b
+    if p[0] == 'BStack':
+        if a == 'S' or b == 'S' or a != b:
+            return None
+        return 2 * a
+    if p[0] == 'BMaskWhere' and a != b:      # mask_where does not broadcast the object being masked
+        return None
+    if a == 'S':
+        return b
+    if b == 'S':
+        return a
+    if a == b or a == 1 or b == 1:
+        return max(a, b)
+    return 'E' if p[0] != 'BEq' else None
+
+
+def k_random_prog(rng, depth, nleaves):
+    if depth == 0 or rng.random() < 0.2:
+        return ['leaf', rng.randrange(nleaves)]
+    if rng.random() < 0.45:
+        return [rng.choice(K_UN), k_random_prog(rng, depth - 1, nleaves)]
+    return [rng.choice(K_BIN), k_random_prog(rng, depth - 1, nleaves), k_random_prog(rng, depth - 1, nleaves)]
+
+
+def k_gen_case(rng):
+    n = rng.choice([1, 2, 3, 3, 4, 4, 5])
+    nl = rng.choice([1, 2, 2, 3])
+    lens = [n] * nl
+    if rng.random() < 0.12:
+        lens[rng.randrange(nl)] = rng.choice([1, 2, 3])
+    env, twin = [], []
+    for ln in lens:
+        style = rng.random()
+        vals = [rng.choice([-3, -2, -1, 0, 0, 1, 2, 3, 4]) for _ in range(ln)]
+        if style < 0.25:       # index-like
+            vals = [rng.randrange(-n, n) if rng.random() < 0.85 else rng.choice([n, -n - 1, 9]) for _ in range(ln)]
+        r = rng.random()
+        if r < 0.15:
+            mask = [False] * ln
+        elif r < 0.27:
+            mask = [True] * ln
+        else:
+            mask = [rng.random() < 0.4 for _ in range(ln)]
+        tv = [(rng.choice(K_HIDDEN) if m else v) for v, m in zip(vals, mask)]
+        env.append([[int(m), v] for m, v in zip(mask, vals)])
+        twin.append([[int(m), v] for m, v in zip(mask, tv)])
+    for _ in range(40):
+        p = k_random_prog(rng, rng.choice([1, 2, 2, 3]), nl)
+        if p[0] != 'leaf' and k_len(p, lens) is not None:
+            return {'env': env, 'twin': twin, 'prog': p}
+    return {'env': env, 'twin': twin, 'prog': ['UNeg', ['leaf', 0]]}
+
+
+def k_eval(p, leaves, Pm):
+    if p[0] == 'leaf':
+        return leaves[p[1]]
+    a = k_eval(p[1], leaves, Pm)
+    o = p[0]
+    if len(p) == 2:
+        if o == 'UNeg':
+            return -a
+        if o == 'USanit0':
+            return a.mask_where_eq(0, 1)
+        if o == 'UShrinkRT':
+            am = a.antimask
+            return a.shrink(am).unshrink(am)
+        if o == 'USort':
+            return a.sort()
+        f = {'USum': 'sum', 'UMax': 'max', 'UMin': 'min', 'UMean': 'mean', 'UAny': 'any', 'UAll': 'all',
+             'UArgmax': 'argmax', 'UArgmin': 'argmin'}[o]
+        r = getattr(a, f)()
+        return ('mean', r) if o == 'UMean' else r
+    b = k_eval(p[2], leaves, Pm)
+    if isinstance(a, tuple) or isinstance(b, tuple):
+        raise KUnsupported('mean inside')
+    if o == 'BAdd':
+        return a + b
+    if o == 'BSub':
+        return a - b
+    if o == 'BMul':
+        return a * b
+    if o == 'BFloordiv':
+        return a // b
+    if o == 'BEq':
+        return a == b
+    if o == 'BLt':
+        return a < b
+    if o == 'BMaximum':
+        return Pm.Scalar.maximum(a, b)
+    if o == 'BMaskWhere':
+        return a.mask_where(b.as_mask_where_nonzero())
+    if o == 'BGetitem':
+        return a[b]
+    if o == 'BStack':
+        r = Pm.Qube.stack(a, b)
+        return r.reshape((r.size,))
+    raise KeyError(o)
+
+
+class KUnsupported(Exception):
+    pass
+
+
+def k_impl(env, p, Pm):
+    """impl outcome as ('ok', n, mask list, value list) | ('err', family) | ('skip', why)"""
+    leaves = []
+    for cells in env:
+        m = np.array([bool(c[0]) for c in cells])
+        v = np.array([c[1] for c in cells], dtype=np.int64)
+        leaves.append(Pm.Scalar(v, m))
+    with warnings.catch_warnings():
+        warnings.simplefilter('ignore')
+        try:
+            r = k_eval(p, leaves, Pm)
+        except KUnsupported as e:
+            return ('skip', str(e))
+        except IndexError:
+            return ('err', 'EIndex')
+        except ValueError as e:
+            if 'broadcast' in str(e) or 'shape' in str(e) or 'incompatible dimension' in str(e):
+                return ('err', 'EShape')
+            return ('skip', 'ValueError: ' + str(e)[:60])
+        except Exception as e:
+            return ('skip', '%s: %s' % (type(e).__name__, str(e)[:60]))
+    scale = 1
+    if isinstance(r, tuple):
+        scale, r = 2520, r[1]
+    if isinstance(r, (bool, np.bool_)):
+        return ('skip', 'builtin bool result')
+    if not isinstance(r, Pm.Qube):
+        return ('skip', 'non-qube result')
+    shape = tuple(r.shape)
+    em = np.broadcast_to(np.asarray(r.mask, dtype=bool), shape).reshape(-1)
+    va = np.broadcast_to(np.asarray(r.values), shape).reshape(-1)
+    vals = []
+    for x, mm in zip(va.tolist(), em.tolist()):
+        if mm:
+            vals.append(0)
+        elif scale != 1:
+            vals.append(int(round(float(x) * scale)))
+        else:
+            if isinstance(x, float) and x != int(x):
+                return ('skip', 'non-integer value')
+            vals.append(int(x))
+    return ('ok', len(vals), [bool(x) for x in em.tolist()], vals)
+
+
+def k_mean_inside(p):
+    """UMean below the root: its float result is outside the integer model"""
+    if p[0] == 'leaf':
+        return False
+    return any((c[0] == 'UMean') or k_mean_inside(c) for c in p[1:])
+
+
+def cZ(v):
+    return '(%d)' % v
+
+
+def coq_cells(cells):
+    return clist(['(%s, %s)' % (cbool(c[0]), cZ(c[1])) for c in cells], 'cell')
+
+
+def coq_prog(p):
+    if p[0] == 'leaf':
+        return '(Leaf %d%%nat)' % p[1]
+    if len(p) == 2:
+        return '(Un %s %s)' % (p[0], coq_prog(p[1]))
+    return '(Bin %s %s %s)' % (p[0], coq_prog(p[1]), coq_prog(p[2]))
+
+
+def coq_oobs(o):
+    if o[0] == 'err':
+        return '(OErr %s)' % o[1]
+    return '(OOk %d%%nat %s %s)' % (o[1], clist([cbool(b) for b in o[2]], 'bool'), clist([cZ(v) for v in o[3]], 'Z'))
+
+
+def coq_case(c, o1, o2):
+    return '(%s, %s, %s, %s, %s)' % (clist([coq_cells(x) for x in c['env']], '(list cell)'),
+                                     clist([coq_cells(x) for x in c['twin']], '(list cell)'),
+                                     coq_prog(c['prog']), coq_oobs(o1), coq_oobs(o2))
+
+
+def k_worker(chunk):
+    Pm = P()
+    out = []
+    for c in chunk:
+        if k_mean_inside(c['prog']):
+            out.append(('skip', 'mean inside', None))
+            continue
+        o1 = k_impl(c['env'], c['prog'], Pm)
+        o2 = k_impl(c['twin'], c['prog'], Pm)
+        if o1[0] == 'skip' or o2[0] == 'skip':
+            out.append(('skip', (o1 if o1[0] == 'skip' else o2)[1], None))
+            continue
+        out.append(('case', coq_case(c, o1, o2), (o1, o2)))
     return out
 
 
@@ -775,6 +1048,7 @@ def run(ctx):
     for res in results:
         for k, v in res['stats'].items():
             tot[k] = tot.get(k, 0) + v
+        ctx.nontrivial.update(res['twinned'])
         for cid, f in res['fail']:
             d = byid[cid]
             sig = signature(d, f)
@@ -794,11 +1068,11 @@ def run(ctx):
     progs = corpus_programs()
     if ctx.tier == 'thorough':
         progs += exhaustive_programs()
-        progs += [random_program(ctx.rng, 3) for _ in range(20000)]
+        progs += grow_programs(ctx.rng, 8000, Pm)
     else:
         ex = exhaustive_programs()
         progs += [ex[i] for i in sorted(ctx.rng.sample(range(len(ex)), 6000))]
-        progs += [random_program(ctx.rng, 3) for _ in range(3000)]
+        progs += grow_programs(ctx.rng, 2500, Pm)
     ctx.log('compositions: %d programs' % len(progs))
     cres = sweep.run_parallel(progs, comp_worker, chunk=500)
     cst = {}
@@ -823,6 +1097,39 @@ def run(ctx):
         if prog_depth(p) >= 1:
             ctx.nontrivial.add(lib.case_hash(p))
     ctx.log('compositions done: %s' % cst)
+    # ---- (K) correspondence ----
+    nk = 3000 if ctx.tier != 'thorough' else 30000
+    kcases = [k_gen_case(ctx.rng) for _ in range(nk)]
+    kres = [x for r in sweep.run_parallel(kcases, k_worker, chunk=500) for x in r]
+    terms, kidx = [], []
+    for i, (tag, t, oo) in enumerate(kres):
+        if tag == 'skip':
+            ctx.count('K:skip')
+            ctx.count('K:skip:' + str(t)[:40])
+            continue
+        terms.append(t)
+        kidx.append(i)
+        o1, o2 = oo
+        ctx.count('K:' + ('raises' if o1[0] == 'err' else 'returns'))
+        if o1 != o2:                       # the implementation itself disagrees on the twins
+            c = kcases[i]
+            sig = {'kind': 'model-prog', 'root': c['prog'][0], 'ops': '+'.join(sorted(prog_ops(c['prog'])))}
+            ctx.fail(sig, {'kcase': c}, {'untouched': str(o1), 'twin': str(o2)}, tie='model-vs-impl')
+    for c in kcases:
+        for o in prog_ops(c['prog']):
+            ctx.count('K:op:' + o)
+    ctx.traces = len(terms)
+    ctx.evaluations += 2 * len(terms)
+    mism = ctx.coq_eval_shards('cases', HEADER, terms, lambda x: 'mismatches %s' % x, shard=400)
+    ctx.log('correspondence: %d cases, %s mismatches' % (len(terms), None if mism is None else len(mism)))
+    ctx.cov['correspondence_cases'] = len(terms)
+    ctx.cov['correspondence_mismatches'] = len(mism or [])
+    if mism:
+        j = mism[0]
+        c = kcases[kidx[j]]
+        shown = ctx.coq_show(HEADER, 'run03 %s' % terms[j])
+        ctx.broken_tie('correspondence', 'model-vs-impl',
+                       {'n_mismatch': len(mism), 'first_case': c, 'impl': [str(x) for x in kres[kidx[j]][2]], 'model': shown})
     ctx.exhaustive = (ctx.tier == 'thorough')
     return ctx.finish()
 
@@ -846,6 +1153,15 @@ def replay(path):
             print('  leak from :', f['leak_from'])
             print('  first difference at %s [%s]:\n     %s\n     %s' % (f['path'], f['kind'], f['a'], f['b']))
         bad = bool(fails)
+    if 'kcase' in c:
+        k = c['kcase']
+        print('program   :', k['prog'])
+        o1, o2 = k_impl(k['env'], k['prog'], Pm), k_impl(k['twin'], k['prog'], Pm)
+        print('  operands  :', k['env'])
+        print('  twin      :', k['twin'])
+        print('  untouched :', o1)
+        print('  twin      :', o2)
+        bad = o1 != o2
     if 'prog' in c:
         print('program   :', prog_str(c['prog']))
         print('leaves    :', {i: LEAVES[i] for i in set(prog_leaves(c['prog']))})
